@@ -219,7 +219,9 @@ def execute_distributed_partition(
 
             for p in part.all_input_names():
                 partition_input_names_refcount[p] -= 1
-                if partition_input_names_refcount[p] == 0:
+                if (partition_input_names_refcount[p] == 0
+                        # an overall output may carry the name of an input
+                        and p not in partition.overall_output_names):
                     del context[p]
 
         if not ready_pids:
@@ -233,7 +235,8 @@ def execute_distributed_partition(
     if __debug__:
         for name, count in partition_input_names_refcount.items():
             assert count == 0
-            assert name not in context
+            assert (name not in context
+                    or name in partition.overall_output_names)
 
     return {name: context[name] for name in partition.overall_output_names}
 
